@@ -47,7 +47,9 @@ META = {
             "no id twice in or across relations), C13_cleanUp_exact, C13_removeAll_forgets, C13_no_resurrection, and "
             "C13_vbk_header_both_refuted (+ C13_inflight_block_resolved: gone after the next pass) / "
             "C13_resubmit_connected_refuted (the two tolerated deviations as model facts; "
-            "this model is not stepped against the implementation). Tie to the code: extracted Vsm model vs the real ValueSortedMap (two "
+            "the extracted rstep IS stepped against the real MemPool on every generated history - each submit / connect pass / "
+            "cleanUp / removeAll / clear with the verdicts the implementation itself produced for that step as inputs, all "
+            "seven containers and the relations compared after every step, props/_relcorr.py). Tie to the code: extracted Vsm model vs the real ValueSortedMap (two "
             "instantiations) on ALL op sequences up to length 4 (quick) / 5 (thorough) over 16 ops with three "
             "comparator-equal values, and the direct consistency oracle over all mempool views after EVERY line of "
             "generated histories, run on the un-instrumented and on the ASan/UBSan (-O0) build.",
@@ -247,6 +249,14 @@ def run(ctx):
         return
     rel, asan = hr["h_mempool"], ha["h_mempool"]
     runner = two_step(rel, asan, ctx.work)
+    if ctx.replay and ctx.replay.get("stage") == "rel-model":
+        okm, rmodel, mlog = vlib.build_model("Rel")
+        if okm:
+            from props import _relcorr
+            _relcorr.replay(ctx, rel, rmodel)
+        else:
+            ctx.broken.append("model-build(Rel): " + mlog[-300:])
+        return
     if ctx.replay and ctx.replay.get("harness") == "h_mempool":
         replay(ctx, runner, "asan")
         return
@@ -276,6 +286,15 @@ def run(ctx):
             ctx.cov["pool_model"] = pc
             ctx.cov["disagreements_checked"] = ctx.cov.get("disagreements_checked", 0) + pc["steps"]
             ctx.cov["traces_validated_against_impl"] = ctx.cov.get("traces_validated_against_impl", 0) + pc["agree"]
+    # the extracted relations model (RelDefs.rstep) stepped against the implementation on the same histories
+    if not ctx.violations:
+        okm, rmodel, mlog = vlib.build_model("Rel")
+        if not okm:
+            ctx.broken.append("model-build(Rel): " + mlog[-300:])
+        else:
+            from props import _relcorr
+            rc = _relcorr.run(ctx, rel, rmodel, scripts, 40 if ctx.tier == "quick" else 900, hashfile)
+            ctx.cov["disagreements_checked"] = ctx.cov.get("disagreements_checked", 0) + rc["steps"]
     # extraction cross-check: sampled vsm cases and whole pool histories re-evaluated inside Coq (props/_mpxcheck.py)
     from props import _mpxcheck
     _mpxcheck.run(ctx)
